@@ -483,13 +483,35 @@ static tnode *insert_lowlevel(troot *root, hnode *h)
 static uint64_t last_hash;
 static hnode *find_node(troot *root, int key) { return (hnode *)T_(search)(root, &key, cmp_key); }
 
+static int dup_toggle;
 static int do_insert(troot *root, int key, int lowlevel)
 {
-    hnode *h = node_new(key);
+    hnode *h;
     int had = model_has(key);
     tnode *ret;
     walkres before = {0};
     opname = had ? "dup-insert" : (lowlevel ? "insert_adjust" : "insert");
+    if (had && (++dup_toggle & 1))
+    {
+        /* the element handed in is the resident object itself: must come back untouched */
+        hnode *res = (hnode *)T_(search)(root, &key, cmp_key);
+        if (res && is_live(&res->n))
+        {
+            opname = "dup-insert-same-object";
+            before = walk(root, mkeys, mn);
+            ret = T_(insert)(root, &res->n, cmp_node);
+            ++vf.evals;
+            VF_COUNT("dup-insert-of-resident-object");
+            if (ret != &res->n) { vf_viol(TN "/dup-insert-same-object/did-not-return-resident", "re-inserting the resident node of key %d returned %p", key, (void *)ret); }
+            {
+                walkres after = walk(root, mkeys, mn);
+                if (before.ok && after.ok && before.hash != after.hash) { vf_viol(TN "/dup-insert-same-object/tree-changed", "re-inserting the resident node of key %d changed the tree", key); }
+                last_hash = after.hash;
+                return after.ok;
+            }
+        }
+    }
+    h = node_new(key);
     if (had) { before = walk(root, mkeys, mn); }
     ret = lowlevel ? insert_lowlevel(root, h) : T_(insert)(root, &h->n, cmp_node);
     ++vf.evals;
@@ -730,7 +752,8 @@ static int reach_check(troot *root, uint8_t const *handed, hnode **nodes, int n,
     return cnt == n - nhanded ? 0 : -5;
 }
 
-/* tear-down; variant 0: plain; 1: reset `next` to null at step k; 2: stop after k steps */
+/* tear-down; variant 0: plain; 1: reset `next` to null at step k; 2: stop after k steps;
+   3: start from the explicit node nodes[k] (the documented "input starting node") */
 static void check_tear(troot *root, hnode **nodes, int n, int variant, int k)
 {
     static uint8_t handed[MAXN + 8];
@@ -744,7 +767,8 @@ static void check_tear(troot *root, hnode **nodes, int n, int variant, int k)
         lchild[h->id] = h->n.left ? (int)((hnode *)h->n.left)->id : -1;
         rchild[h->id] = h->n.right ? (int)((hnode *)h->n.right)->id : -1;
     }
-    vf_count_dyn(variant == 0 ? "tear-full" : variant == 1 ? "tear-reset-next" : "tear-interrupted", 1);
+    vf_count_dyn(variant == 0 ? "tear-full" : variant == 1 ? "tear-reset-next" : variant == 2 ? "tear-interrupted" : "tear-from-explicit-node", 1);
+    if (variant == 3 && n) { next = &nodes[k % n]->n; }
     for (;;)
     {
         if (variant == 2 && steps == k) { break; }
@@ -925,6 +949,14 @@ static void bfs_case_iter(uint64_t c, vf_rng *r)
             vf_log("shape %s (n=%u): tear-down interrupted after %d steps", hex, n, k);
             check_tear(&root, nodes, (int)n, 2, k);
             free_all_live();
+            /* every node as the explicit starting node */
+            for (unsigned q = 0; q < n; ++q)
+            {
+                build_shape(&root, s, nodes);
+                vf_log("shape %s (n=%u): tear-down started from pre-order node %u", hex, n, q);
+                check_tear(&root, nodes, (int)n, 3, (int)q);
+                free_all_live();
+            }
         }
         if (vf_want_sample() && n >= 5 && (s % 7) == 0)
         {
@@ -986,7 +1018,7 @@ static void random_case(uint64_t c, vf_rng *r)
         /* final tear-down of the random tree */
         {
             static hnode *nodes[MAXN + 8];
-            int n = 0, variant = (int)vf_below(r, 3), k;
+            int n = 0, variant = (int)vf_below(r, 4), k;
             for (uint32_t i = 0; i < nlive_ids; ++i)
             {
                 if (live[i]) { nodes[n++] = live[i]; }
